@@ -544,6 +544,27 @@ func c07(x *mon.Ctx) {
 		w.Resign()
 		crashingCollaborators(x, "qe-mismatch-and-a-crashing-getter", w.Case(world.LColl, "identity-names-another-mrsigner", "crashing-getter"))
 	}
+	{ // members of verify.Options this workload does not know (none on the unchanged tree), set to permissive-looking values: a QE
+		// whose matching level is not UpToDate, or whose MRSIGNER is not the identity's, stays refused
+		var rejects []*world.Case
+		for _, st := range tcbStatusNames[1:] {
+			w := base.Clone()
+			for i := range w.Qe.Levels {
+				w.Qe.Levels[i].Status = st
+			}
+			w.Resign()
+			c := w.Case(world.LColl, "qe-level-status", st)
+			c.Expect = "reject"
+			rejects = append(rejects, c)
+		}
+		w := base.Clone()
+		w.Qe.MrSigner = strings.Repeat("5A", 32)
+		w.Resign()
+		c := w.Case(world.LColl, "identity-names-another-mrsigner", "")
+		c.Expect = "reject"
+		rejects = append(rejects, c)
+		unknownOptionMembers(x, "unknown-option-member-set", rejects)
+	}
 	enableShadowForTwins(x)
 	jobs := c07Jobs(x, base)
 	for _, j := range jobs {
